@@ -22,6 +22,9 @@ def main():
                        stdout=subprocess.PIPE, stderr=subprocess.STDOUT, text=True)
     line = next((l for l in r.stdout.splitlines() if l.startswith('RESULT ')), None)
 
+    os.makedirs('/tmp/campaign_out', exist_ok=True)
+    open(f'/tmp/campaign_out/{name}.log', 'w').write(r.stdout)
+
     print('\n'.join(l for l in r.stdout.splitlines() if not l.startswith('WARNING'))[-3000:])
 
     if line is None:
